@@ -597,6 +597,19 @@ ABS_FORMS = {
                               "default(executable('prog', files=['main.c']))\n",
     'copies-of-files-elsewhere': "default(copy_files(['@EXT@/data.txt']))\n"
                                  "default(executable('prog', files=['main.c']))\n",
+    # the precompiled header of a header named by an absolute path
+    'pch-of-header-elsewhere': "executable('prog', files=['main.c'], pch='@EXT@/pre.h')\n",
+    'pch-of-header-in-srcdir': "executable('prog', files=['main.c'], pch='@SRC@/sub/pre.h')\n",
+    # a relative source path whose remainder below the target's directory starts with a
+    # component spelled like a home-directory reference (it is a plain directory name here)
+    'object-of-source-below-tilde-directory':
+        "executable('sub/prog', files=['sub/main.c', 'sub/~/foo.c'])\n",
+    'objects-of-sources-below-tilde-directory':
+        "default(object_files(['sub/~/foo.c'], directory='sub/objs'))\n"
+        "default(executable('prog', files=['main.c']))\n",
+    'copies-of-files-below-tilde-directory':
+        "default(copy_files(['sub/~/note.txt'], directory='sub/out'))\n"
+        "default(executable('prog', files=['main.c']))\n",
 }
 
 
@@ -609,16 +622,22 @@ def run_abs(case, res):
         src, bld, ext = (os.path.join(root, x) for x in ('src', 'bld', 'ext'))
         text = ABS_FORMS[form].replace('@SRC@', src).replace('@EXT@', ext)
         proj.write_tree(src, {'build.bfg': text, 'main.c': 'int main(void){return 0;}\n',
-                              'sub/foo.c': 'int foo;\n'})
-        proj.write_tree(ext, {'foo.c': 'int foo;\n', 'data.txt': 'd\n'})
+                              'sub/foo.c': 'int foo;\n', 'sub/pre.h': '#define PRE 1\n',
+                              'sub/main.c': 'int main(void){return 0;}\n',
+                              'sub/~/foo.c': 'int foo;\n', 'sub/~/note.txt': 'n\n'})
+        proj.write_tree(ext, {'foo.c': 'int foo;\n', 'data.txt': 'd\n',
+                              'pre.h': '#define PRE 1\n'})
+        os.makedirs(os.path.join(root, 'home'))
         log = os.path.join(root, 'log')
         extra = proj.stub_toolchain_env(log, backend)
-        extra.update({'CP': 'vwrap-cp -f', 'VSTUB_ENVKEYS': 'NONE'})
+        extra.update({'CP': 'vwrap-cp -f', 'VSTUB_ENVKEYS': 'NONE',
+                      'HOME': os.path.join(root, 'home')})
         env = core.base_env(extra)
         before = (proj.snapshot(src), proj.snapshot(ext))
         res.evaluations = 1
         res.key(['abs', backend, form], True)
         w = {'backend': backend, 'form': form, 'script': ABS_FORMS[form]}
+        how = 'tilde-directory-name' if 'tilde' in form else 'absolute-input-path'
         rc, out = proj.configure(src, bld, backend, env=env)
         if rc != 0:
             # a refusal is loud; the property only forbids writing outside the build directory
@@ -641,7 +660,7 @@ def run_abs(case, res):
         gone = sorted(k for k in before[1] if k not in after[1]) + \
             sorted(k for k in before[0] if k not in after[0])
         if gone:
-            res.violate((backend, 'clean-removed-an-input', 'absolute-input-path', form),
+            res.violate((backend, 'clean-removed-an-input', how, form),
                         dict(w, removed=gone[:4]))
         after = mid
         new_src = sorted(set(after[0]) - set(before[0]))
@@ -651,7 +670,7 @@ def run_abs(case, res):
         outside = sorted(o for o in outs if not o.startswith(bld + os.sep))
         if new_src or new_ext or outside or changed:
             where = 'in-source-directory' if new_src else 'beside-the-input'
-            res.violate((backend, 'output-outside-builddir', 'absolute-input-path', where),
+            res.violate((backend, 'output-outside-builddir', how, where),
                         dict(w, created_in_srcdir=new_src[:6], created_beside_input=new_ext[:6],
                              step_outputs_outside=[os.path.relpath(o, root) for o in outside][:6],
                              inputs_changed=changed[:4]))
